@@ -46,8 +46,15 @@ def run (ctx):
     drops = []
     # a local set that is built and then becomes self._ports stands for it
     tgt = set(['self._ports']) | set(v.id for t, v, st, k in q.stores_in(f.node) if norm(t) == 'self._ports' and isinstance(v, ast.Name))
+    # a filtered copy may be built under a name of its own first (`kept = [x for x in self._ports if x.port_no != n]`) and become the set
+    # later, directly or wrapped (`self._ports = set(kept)`, `current = set(kept); self._ports = current`)
+    filt = set()
+    for _i in range(3):
+      for t, v, st, k in q.stores_in(f.node):
+        if isinstance(t, ast.Name) and v is not None and t.id not in filt and (('port_no !=' in norm(v) and 'self._ports' in norm(v)) or any(isinstance(x_, ast.Name) and x_.id in filt for x_ in ast.walk(v))): filt.add(t.id)
+    tgt |= set(t.id for t, v, st, k in q.stores_in(f.node) if isinstance(t, ast.Name) and t.id in filt and any(norm(t2) == 'self._ports' and isinstance(v2, ast.Name) and v2.id == t.id for t2, v2, st2, k2 in q.stores_in(f.node)))
     for t, v, st, k in q.stores_in(f.node):
-      if norm(t) in tgt and v is not None and 'port_no !=' in norm(v): drops.append(q.enclosing_stmt_node(g, st))
+      if norm(t) in tgt and v is not None and ('port_no !=' in norm(v) or (norm(t) == 'self._ports' and any(isinstance(x_, ast.Name) and x_.id in filt for x_ in ast.walk(v)))): drops.append(q.enclosing_stmt_node(g, st))
     for c in calls_in(f.node):
       if call_name(c) in ('discard', 'remove') and norm(c.func.value) in tgt: drops.append(q.enclosing_stmt_node(g, c))
     port_add = g.nodes_with_call(lambda c: call_name(c) == 'add' and norm(c.func.value) in tgt)
@@ -293,6 +300,7 @@ def run (ctx):
       n = q.enclosing_stmt_node(g, st)
       if isinstance(v, ast.List) and len(v.elts) == 1 and norm(v.elts[0]) == ofp: repl.append(n)
       elif (isinstance(v, ast.List) and not v.elts and not IDLE_NONE) or (IDLE_NONE and isinstance(v, ast.Constant) and v.value is None): clears.append(n)
+      elif isinstance(v, ast.Name): pass        # a local that was worked on first: what it holds is decided by value below (`after`)
       else: ctx.bad('R-EFFECT', isr, "pending-parts store `%s`" % norm(st), "the pending part list is set to something other than [] or [%s]" % ofp, (mod, st), 'D3')
   hcalls = g.nodes_with_call(lambda c: isinstance(c.func, ast.Name) and c.func.id == 'handler')
   ctx.floor('reassembly sites (append, replace, clear, handler)', len(appends) + len(repl) + len(clears) + len(hcalls), 3)
